@@ -2,7 +2,7 @@
 SPECIFICATION SimSpec
 CONSTANTS Family = "clique"
           Epoch = 4
-          CliqueFixed = FALSE
+          CliqueFixed = TRUE
           Sets <- SetsD
           GenesisSigner = "c"
           G0 = 200
@@ -13,8 +13,7 @@ CONSTANTS Family = "clique"
           MaxLen = 9
           EmitOn = FALSE
           TraceLen = 16
-\* PropC29 is not an invariant of this model: the code stores headers sealed by non-signers (finding, see known/C29.json);
-\* the monitor clauses are evaluated edge by edge on the real code instead.
-INVARIANT PropCanon
+\* CliqueFixed = FALSE reproduces the two deviations repaired in /repo by the commits 6966a3f and e66d2a4 (then PropC29 is violated in the model)
+INVARIANT PropC29
 INVARIANT ModelSane
 CHECK_DEADLOCK FALSE
